@@ -5,14 +5,27 @@ from wsx.core import s_and, sym_equal
 from wsx.data import SymSeq
 
 
-def impl_events(ns, stream_pieces, adj_kw=None, service="end"):
+def impl_events(ns, stream_pieces, adj_kw=None, service="end", probe=False):
     adj = common.make_adj(ns, **(adj_kw or {}))
     app = common.RecordingApp()
     r = common.drive(ns, adj, app, stream_pieces, service=service)
-    responses, rest = common.parse_responses(r["wire"])
+    probe_res = None
+    wire = r["wire"]
+    calls = list(r["calls"])
+    if probe and r["closing"]:
+        # what does a closing / refusing connection do with further input?
+        ch = r["ch"]
+        ncalls = len(app.calls)
+        nsent = len(r["sock"].sent)
+        try:
+            took = ch.received(b"GET /probe HTTP/1.1\r\n\r\n")
+            ch.server.task_dispatcher.run_all()
+            probe_res = (bool(took), len(app.calls) - ncalls, len(r["sock"].sent) - nsent, bool(ch.readable()))
+        except Exception as e:  # noqa
+            probe_res = ("exc", type(e).__name__)
+    responses, rest = common.parse_responses(wire)
     events = []
     ci = 0
-    calls = r["calls"]
     for code, head, body in responses:
         if code == 200 and ci < len(calls):
             c = calls[ci]
@@ -22,8 +35,10 @@ def impl_events(ns, stream_pieces, adj_kw=None, service="end"):
             events.append(("continue",))
         else:
             events.append(("err", code))
+    err_heads_ok = all((b"\r\nConnection: close" in head) for code, head, body in responses if code not in (200, 100))
     return dict(events=events, unanswered_calls=len(calls) - ci, rest=len(rest), closing=r["closing"],
-                pending=r["pending"], queued=r["queued"], exc=r["exc"], closed=r["closed"])
+                pending=r["pending"], queued=r["queued"], exc=r["exc"], closed=r["closed"], probe=probe_res,
+                err_conn_close=err_heads_ok)
 
 
 def _envkey(name):
@@ -79,6 +94,15 @@ def compare(obs, ref_events):
     return out
 
 
+def compare_refusal(obs):
+    """C06 extras: error responses announce the close; a closing connection consumes nothing more"""
+    out = [("every error response carries Connection: close", obs["err_conn_close"])]
+    if obs["closing"] and obs["probe"] is not None:
+        out.append(("a closing connection ignores further input: no parse, no application call, no bytes, not readable (got %r)" % (obs["probe"],),
+                    obs["probe"] == (False, 0, 0, False)))
+    return out
+
+
 def reference(stream, max_header=262144, max_body=1073741824, strict_target_ctl=True):
     cfg = http_req.Cfg(max_header=max_header, max_body=max_body, strict_target_ctl=strict_target_ctl)
     return http_req.parse_stream(stream, cfg)
@@ -91,4 +115,5 @@ def norm_obs(obs):
         if isinstance(x, bytearray):
             return bytes(x)
         return x
-    return n((obs["events"], obs["unanswered_calls"], obs["rest"], obs["closing"], obs["pending"], obs["queued"], obs["exc"]))
+    return n((obs["events"], obs["unanswered_calls"], obs["rest"], obs["closing"], obs["pending"], obs["queued"], obs["exc"],
+              obs.get("probe"), obs.get("err_conn_close")))
